@@ -153,9 +153,9 @@ def extra(report, env):
                 ok = (r['error'] is None and close(r['result'], mean(sel))) if sel else (r['error'] is not None)
                 if not ok and len(fails) < 5:
                     fails.append({'formula': '%s with xs=%r cs=%r' % (text, xs, crit_cells), 'detail': 'expected %s got %r' % (float(mean(sel)) if sel else 'an error', r)})
-        import fnmatch
+        from pyvc.api import wildcard_match
         for pat in ('a*', '?ig', '*an*', 'apple', 'appl?', '*ana', 'fi?', 'b*a'):
-            cnt = sum(1 for w_ in words if (fnmatch.fnmatch(w_, pat) if ('*' in pat or '?' in pat) else w_ == pat))
+            cnt = sum(1 for w_ in words if (wildcard_match(w_, pat) if ('*' in pat or '?' in pat) else w_ == pat))
             cases += 1
             r = p.parse('COUNTIF(ws,"%s")' % pat)
             if r['result'] != cnt and len(fails) < 5:
